@@ -744,8 +744,12 @@ class Interp:
             if not go:
                 return
             if i == spec.unroll:
-                # unwinding assumption: bounded mode only
-                ctx.notes.append("bounded: %s unrolled %d times" % (tag, spec.unroll))
+                if getattr(spec, "unwind_assert", False):
+                    # unwinding assertion: the bound is proved sufficient, so the unrolling is complete
+                    ctx.oblige("%s.unwinding-assertion(%d iterations suffice)" % (tag, spec.unroll), False,
+                               kind="unwinding", line=extract.line_of(n))
+                else:
+                    ctx.notes.append("bounded: %s unrolled %d times" % (tag, spec.unroll))
                 raise PathEnd()
             try:
                 self.stmt(body)
